@@ -24,5 +24,6 @@ EmitInv == pc = "end" => PrintT(ToJson([run |-> run, file |-> file, hist |-> his
 ASSUME UnitOK
 ASSUME PrintT(ToJson([pool |-> Pool, grid |-> Grid, K |-> KPat, u |-> U, unit |-> Unit,
                       ranking |-> RankTab, nd |-> NDTab,
-                      best |-> [sid \in 1..Len(PoolDef) |-> IF ChiTab[sid][1].k = "fin" THEN ChiTab[sid][1].v ELSE -1]]))
+                      best |-> [sid \in 1..Len(PoolDef) |-> IF ChiTab[sid][1].k = "fin" THEN ChiTab[sid][1].v ELSE -1],
+                      sing |-> [sid \in 1..Len(PoolDef) |-> Singular(Pool[sid], KPat)]]))
 =============================================================================
